@@ -264,6 +264,9 @@ def r09e(ctx):
                     return None
                 if isinstance(e, ast.Name):
                     return kind.get(e.id)
+                if isinstance(e, (ast.ListComp, ast.GeneratorExp)) and len(e.generators) == 1 and classify(e.generators[0].iter) == "DOCS" \
+                        and isinstance(e.generators[0].target, ast.Name) and dotted(e.elt) == e.generators[0].target.id:
+                    return "DOCS"       # a (possibly filtered) copy of the documents
                 if isinstance(e, ast.Subscript) and classify(e.value) == "DOCS":
                     return "DOCS" if isinstance(e.slice, ast.Slice) else "DOC"
                 if isinstance(e, ast.IfExp):
@@ -280,14 +283,17 @@ def r09e(ctx):
                         k = classify(a.value)
                         if isinstance(t, ast.Name) and k:
                             kind[t.id] = k
-                    elif isinstance(a, ast.For) and isinstance(a.target, ast.Name) and classify(a.iter) == "DOCS":
-                        kind[a.target.id] = "DOC"
+                    elif isinstance(a, (ast.For, ast.comprehension)) and isinstance(a.target, ast.Name) and classify(a.iter) == "DOCS":
+                        kind[a.target.id] = "DOC"       # loop and comprehension variables alike
             parses = [c for c in walk_no_nested(f.node) if isinstance(c, ast.Call) and classify(c) in ("DOC", "DOCS")
                       and (call_name(c) or "").rsplit(".", 1)[-1] in PARSE_NAMES]
             if not parses:
                 continue
             n += len(parses)
             bad = [e for e in _truth_tested(f.node) if classify(e) == "DOC"]
+            # filter(None, docs) / filter(bool, docs) drop the falsy documents just the same
+            bad += [c for c in walk_no_nested(f.node) if isinstance(c, ast.Call) and call_name(c) == "filter" and len(c.args) == 2
+                    and classify(c.args[1]) == "DOCS" and (dotted(c.args[0]) == "bool" or (isinstance(c.args[0], ast.Constant) and c.args[0].value is None))]
             if bad:
                 for e in bad:
                     ctx.violation("R09e", f.file, f.short, e, f"truth value of document `{norm(e, 30)}`",
